@@ -755,8 +755,12 @@ class Exec:
             raise Unsupported("for/else", s)
         res = []
         for itv, p2 in self.ev(s.iter, p):
+            if isinstance(itv, Tup) and len(itv.items) >= 2 and not all(isinstance(x, PyC) for x in itv.items):
+                # a literal sequence of computed items: one arbitrary iteration suffices (avoids k-fold path multiplication)
+                res.extend(self.summarised_loop(s, asV(itv), p2))
+                continue
             if isinstance(itv, Tup):
-                # literal sequence: unrolled
+                # literal sequence of constants: unrolled
                 paths = [p2]
                 for item in itv.items:
                     nxt = []
